@@ -113,22 +113,19 @@ theorem tiles_end {xs : List Ent} : ∀ {a e : Nat}, tiles xs a e = true → ∀
       | head => have := tiles_start_le h2; omega
       | tail _ hx' => have := ih h2 x hx'; omega
 
-/-- a user chunk (in use, at least MIN_CHUNK_SIZE) is never the last header of its segment: at least
-8 more bytes of the segment follow it (the word its payload may extend into) -/
-theorem tiles_user_not_last {xs : List Ent} : ∀ {a e : Nat}, tiles xs a e = true →
-    ∀ x ∈ xs, x.cin = true → 32 ≤ x.size → x.addr + x.size + 8 ≤ e := by
+/-- a header that is not a trailer end (foot word / fencepost) is never the last header of its
+segment: at least 8 more bytes of the segment follow the chunk -/
+theorem tiles_not_last {xs : List Ent} : ∀ {a e : Nat}, tiles xs a e = true →
+    ∀ x ∈ xs, isTrailerEnd x = false → x.addr + x.size + 8 ≤ e := by
   induction xs with
   | nil => intro a e _ x hx; cases hx
   | cons y ys ih =>
-    intro a e h x hx hc hs
+    intro a e h x hx hnt
     cases ys with
     | nil =>
-      simp only [tiles, isTrailerEnd, Bool.and_eq_true, Bool.or_eq_true, decide_eq_true_eq, Bool.not_eq_true'] at h
+      simp only [tiles, Bool.and_eq_true] at h
       cases hx with
-      | head =>
-        rcases h.2 with h3 | h3
-        · rw [hc] at h3; cases h3.1
-        · omega
+      | head => rw [hnt] at h; exact absurd h.2 (by decide)
       | tail _ hx' => cases hx'
     | cons z rest =>
       simp only [tiles, Bool.and_eq_true, decide_eq_true_eq] at h
@@ -137,7 +134,15 @@ theorem tiles_user_not_last {xs : List Ent} : ∀ {a e : Nat}, tiles xs a e = tr
       | head =>
         have := tiles_end h2 z List.mem_cons_self
         omega
-      | tail _ hx' => exact ih h2 x hx' hc hs
+      | tail _ hx' => exact ih h2 x hx' hnt
+
+/-- a user chunk (in use, at least MIN_CHUNK_SIZE) is never the last header of its segment -/
+theorem tiles_user_not_last {xs : List Ent} {a e : Nat} (h : tiles xs a e = true)
+    (x : Ent) (hx : x ∈ xs) (hc : x.cin = true) (hs : 32 ≤ x.size) : x.addr + x.size + 8 ≤ e := by
+  refine tiles_not_last h x hx ?_
+  unfold isTrailerEnd
+  simp only [hc, Bool.not_true, Bool.false_and, Bool.false_or, decide_eq_false_iff_not]
+  omega
 
 theorem tagsOk_tail {top : Nat} {pc : Bool} {p : Ent} {rest : List Ent}
     (h : tagsOk top pc (p :: rest) = true) : tagsOk top p.cin rest = true := by
